@@ -42,6 +42,14 @@ TRUSTED = [
     "numpy state gives equal samples, torch / random global state is untouched, numpy's advances",
     "torch.nn.functional.pad (constant mode, flat padding list starting at the last dimension), index_select, "
     "one_hot, clone, in-place mul_/add_ behave as documented (Model.torch_pad etc.; validated entry by entry on every case)",
+    "labels as objects: coq/C11/Heap.v (to_one_hot_vector_h, label_request_h) reads to_one_hot_vector as an ALLOCATING "
+    "operation for class ids and the mixed label as three new tensors (theorems returned_label_is_fresh, "
+    "returned_label_object_holds_model_label, label_request_writes_nothing_existing, "
+    "successive_labels_are_distinct_objects); tied to KD_REPO per case: the returned label must be a whole storage of its "
+    "own (untyped_storage().data_ptr() distinct from the dataset's storages and from every other tensor returned by "
+    "this / an earlier / a repeated request that is still alive, not a view, storage size = tensor size) wherever the "
+    "model says it is a new object (Check.predicted_label_fresh), and every returned x that is not the dataset's storage "
+    "likewise (Python oracle)",
     "harness/c11.py: id-encoded datasets with an access log (incl. which context object every call was handed), "
     "recording / scripted generators injected by replacing the module attributes `np` (default_rng) and `GlobalRng` "
     "of kd_mix_wrapper, decoding of "
@@ -55,8 +63,12 @@ ASSUMPTIONS = [
     "unchanged after any history of requests, repeated seeded requests are equal and partner == i returns sample i "
     "(theorems wrapped_dataset_unchanged_after_any_history, repeated_requests_equal, self_partner_on_aliasing_dataset; "
     "measured on every case).  What IS assumed: the wrapped dataset's own getitem_x / getitem_class do not modify its "
-    "storage, and nobody writes into a returned untouched sample (with p < 1 an aliasing dataset's untouched x is, as "
-    "the dataset chose, its own storage)",
+    "storage, and nobody writes into a returned tensor that IS the dataset's storage (with p < 1 an aliasing dataset's "
+    "untouched x / a stored float label vector is, as the dataset chose, its own storage).  Every other returned tensor "
+    "belongs to the receiver: in 60% of the cases the harness overwrites it in place with garbage right after every "
+    "request (history requests, the request, its repetitions) and later requests must not notice; expected values come "
+    "from the Python oracle's own one-hot / mixing arithmetic and the Coq model, never from objects of the possibly "
+    "polluted process; the harness undoes its edits at the end of a case so that cases stay independent",
     "all samples of a dataset have the same rank >= 1 and a float dtype (float32 / float64 / float16; the returned x "
     "has the dataset's dtype whether mixed or not; differing ranks: RuntimeError from torch; integer images raise "
     "RuntimeError in mul_ as before the repair)",
@@ -93,7 +105,9 @@ RULE = ("n in 1..7 samples of rank 1..3 with dims 1..5, equal shapes or independ
         "40% of the cases are preceded by a history of 1..4 other requests (random indices / modes, half of them ending "
         "with the same index) through the same wrapper stack; sample dtype float32 / float64 (8%) / float16 (6%); after "
         "the request (and its seeded repetitions in modes 'x', 'class', 'x class', 'class x') every stored tensor and "
-        "label must be what it was; "
+        "label must be what it was; 60% of the cases with a receiver that overwrites every received tensor (x and label, "
+        "unless it is the dataset's own storage) in place after EVERY request; every returned tensor must be an object "
+        "of its own (storage pointers pairwise distinct among live results, no views of longer-lived storage); "
         "distinct by (shapes of i and partner, tokens, label kind, unify, seeded, p, stack, return_ctx, aliasing kind, "
         "history)")
 
@@ -349,6 +363,80 @@ def shares_storage(ds, t):
 HISTORY_MODES = ["x class", "x", "class", "class x", "x class index"]
 
 
+def ds_ptrs(ds):
+    """the storages the wrapped dataset owns (stored samples, stored label matrix)"""
+    import torch
+    ptrs = {x.untyped_storage().data_ptr() for x in ds.xs}
+    if isinstance(ds.store, torch.Tensor):
+        ptrs.add(ds.store.untyped_storage().data_ptr())
+    return ptrs
+
+
+def own_object(t):
+    """a tensor with a storage of its own: not a view, the storage holds exactly its entries"""
+    return t._base is None and t.storage_offset() == 0 and t.untyped_storage().nbytes() == t.numel() * t.element_size()
+
+
+class Consumer:
+    """What the receiver of the samples does with them.  Every tensor a request returns that is not the wrapped
+    dataset's own storage (which the dataset chose to hand out) belongs to the receiver: it must be an object of its
+    own -- a whole storage, shared with no other tensor returned by this or an earlier request that is still alive --
+    and the receiver may edit it in place (in-place label smoothing, normalisation, ...) without any later request
+    noticing.  With `scribble` every such tensor is overwritten with garbage right after it was received.  The edits are
+    undone at the end of the case (restore), so a case never depends on what an earlier case of the run did -- also
+    where the implementation hands out views of process-wide state."""
+
+    def __init__(self, ds, scribble):
+        self.ds, self.scribble = ds, bool(scribble)
+        self.alive, self.undo, self.problems, self.k = [], [], [], 0
+
+    def received(self, tag, named):
+        import torch
+        dsp = ds_ptrs(self.ds)
+        fresh = {}
+        for name, t in named:
+            if not isinstance(t, torch.Tensor) or t.numel() == 0:
+                continue
+            ptr = t.untyped_storage().data_ptr()
+            if ptr in dsp:
+                fresh[name] = False            # the dataset's own object, handed on as the dataset chose
+                continue
+            ok = True
+            if not own_object(t):
+                ok = False
+                self.problems.append(
+                    f"the {name} returned by {tag} is a view into a storage of {t.untyped_storage().nbytes()} bytes that "
+                    f"is not the wrapped dataset's and outlives the request (the {name} itself has "
+                    f"{t.numel() * t.element_size()} bytes): state shared beyond the request")
+            for tag2, name2, t2 in self.alive:
+                if t2.untyped_storage().data_ptr() == ptr:
+                    ok = False
+                    self.problems.append(f"the {name} returned by {tag} shares its storage with the {name2} returned by "
+                                         f"{tag2}, which is still alive (and not the wrapped dataset's storage)")
+                    break
+            fresh[name] = ok
+            self.alive.append((tag, name, t))
+            if self.scribble:
+                self.undo.append((t, t.clone()))
+                self.k += 1
+                with torch.no_grad():
+                    t.copy_(torch.full_like(t, -3.0 - self.k))
+        return fresh
+
+    def restore(self):
+        import torch
+        with torch.no_grad():
+            for t, saved in reversed(self.undo):
+                t.copy_(saved)
+        del self.undo[:]
+        del self.alive[:]
+
+
+def named_items(out, toks):
+    items = [out] if len(toks) == 1 else (list(out) if isinstance(out, (tuple, list)) else [out])
+    return [({"x": "x", "class": "label"}.get(t, t), it) for t, it in zip(toks, items)]
+
+
 def mutated(ds, pristine):
     import torch
     out = []
@@ -460,6 +548,20 @@ def build_stack(case, ds, kw):
 
 
 def run_impl(case):
+    box = {}
+    try:
+        obs = _run_impl(case, box)
+        c = box.get("consumer")
+        if c is not None and c.problems:
+            obs["storage"] = c.problems[:3]
+        return obs
+    finally:
+        c = box.get("consumer")
+        if c is not None:
+            c.restore()            # the harness's own in-place edits of received tensors are undone
+
+
+def _run_impl(case, box):
     import gc
     import torch
     import numpy as np
@@ -472,6 +574,7 @@ def run_impl(case):
     norm_idx = idx + n if idx < 0 else idx
     events = []
     ds, pristine = build_dataset(case, events)
+    consumer = box["consumer"] = Consumer(ds, case.get("scribble"))
     kw = {}
     for k in ("mixup_p", "cutmix_p", "mixup_alpha", "cutmix_alpha"):
         if case.get(k) is not None:
@@ -493,11 +596,15 @@ def run_impl(case):
     if hist:
         np.random.seed(case["rng"][1] % (2 ** 32))
         kept, raised = [], 0
-        for hidx, hmode in hist:
+        for hk, (hidx, hmode) in enumerate(hist):
+            hm_ = HISTORY_MODES[hmode % len(HISTORY_MODES)]
             try:
-                kept.append(ModeWrapper(dataset=top, mode=HISTORY_MODES[hmode % len(HISTORY_MODES)])[hidx % n])
+                got = ModeWrapper(dataset=top, mode=hm_)[hidx % n]
             except Exception:
                 raised += 1
+                continue
+            kept.append(got)           # the receiver keeps what it got (and, with scribble, edits it in place)
+            consumer.received(f"earlier request #{hk} (mode '{hm_}', index {hidx % n})", named_items(got, hm_.split()))
         obs["history"] = {"n": len(hist), "raised": raised, "mutated": mutated(ds, pristine)}
         del events[:]              # the access log / generator log describe the recorded request only
     mode = " ".join(case["tokens"])
@@ -563,6 +670,12 @@ def run_impl(case):
             for it, t in zip(items, toks):
                 if t == "x" and isinstance(it, torch.Tensor):
                     obs["x_shares"] = bool(shares_storage(ds, it))
+        # the receiver takes the returned tensors (comparisons below use copies made now)
+        raw_named = named_items(out, toks)
+        items = [it.clone() if isinstance(it, torch.Tensor) else it for it in items]
+        fresh = consumer.received("the request", raw_named)
+        if "label" in fresh or any(t == "class" and isinstance(it, torch.Tensor) for t, (_, it) in zip(toks, raw_named)):
+            obs["lab_fresh"] = bool(fresh.get("label", True))
         # the context: which calls of the wrapped dataset were handed the dictionary that is returned, what it contains
         for c in obs["calls"] or []:
             objs = c.pop("ctx_objs")
@@ -590,6 +703,11 @@ def run_impl(case):
                     if t == "class":
                         agree = agree and torch.equal(it, c2)
                 obs["views_agree"] = bool(agree)
+                for tag, nm in (("the repeated request 'x'", [("x", x1)]), ("the repeated request 'class'", [("label", c1)]),
+                                ("the repeated request 'x class'", [("x", x2), ("label", c2)]),
+                                ("the repeated request 'class x'", [("label", c3), ("x", x3)]),
+                                ("the second repeated request 'x class'", [("x", x4), ("label", c4)])):
+                    consumer.received(tag, nm)
             except Exception as e:
                 obs["views_agree"] = "raised " + type(e).__name__
             obs["mutated"] = mutated(ds, pristine)
@@ -833,6 +951,10 @@ def oracle(case, obs):
     if hm:
         return (f"the wrapped dataset was modified in place by {obs['history']['n']} earlier request(s) through the same "
                 f"wrapper: {hm} ({hands}, getitem_class the stored label like tests_util's ClassificationDataset)")
+    if obs.get("storage"):
+        return ("a returned tensor is not an object of its own: " + "; ".join(obs["storage"])
+                + (" [the receiver overwrites what it receives in place: later requests read the garbage]"
+                   if case.get("scribble") else ""))
     if obs["result"] != "ok":
         if expected_error(case, obs):
             if obs.get("mutated"):
@@ -1004,7 +1126,8 @@ def coq_case(case, obs):
     changed = bool(obs.get("mutated")) or bool((obs.get("history") or {}).get("mutated"))
     shares = obs.get("x_shares") if obs["result"] == "ok" else None
     o = Rec(o_calls=calls, o_items=items, o_wit=wit, o_ctx_ids=ctx_ids, o_alias=alias_kind(case) is not None,
-            o_store_changed=changed, o_x_shares=Opt(shares))
+            o_store_changed=changed, o_x_shares=Opt(shares),
+            o_lab_fresh=Opt(obs.get("lab_fresh") if obs["result"] == "ok" else None))
     return coq((cfg, (lit, Nat(case["ncls"])), [tok(t) for t in case["tokens"]], Nat(i), Nat(OUTCOME[obs["result"]]), o))
 
 
@@ -1078,6 +1201,8 @@ def gen_case(rng, big=False, tier="quick"):
         case["history"] = [[rng.randrange(n), rng.randrange(len(HISTORY_MODES))] for _ in range(rng.randint(1, 4))]
         if rng.random() < 0.5:
             case["history"][-1][0] = case["idx"] % n          # the same index was requested just before
+    if rng.random() < 0.6:
+        case["scribble"] = True                 # the receiver overwrites every tensor it receives in place
     r = rng.random()
     if r < 0.08:
         case["dtype"] = "float64"
@@ -1138,7 +1263,7 @@ def search_cases(rng, tier):
 
 
 def shrink(case):
-    for key in ("loader", "stack", "history", "dtype"):
+    for key in ("loader", "stack", "history", "dtype", "scribble"):
         if case.get(key):
             c = dict(case)
             c.pop(key)
@@ -1227,6 +1352,10 @@ def features(case, obs):
         yield "aliasing dataset mixed with itself (x2 is x)"
     if obs.get("history"):
         yield "history of %d earlier requests" % obs["history"]["n"]
+    if case.get("scribble"):
+        yield "receiver overwrites received tensors in place" + (" (after every request of a history)" if obs.get("history") else "")
+    if "lab_fresh" in obs:
+        yield "returned label " + ("is an object of its own" if obs["lab_fresh"] else "is the dataset's stored vector / shared")
     if "x_shares" in obs:
         yield "returned x " + ("is the dataset's storage" if obs["x_shares"] else "is a new tensor")
     yield "dtype=" + (case.get("dtype") or "float32")
